@@ -23,7 +23,8 @@
 //!             produces no reply entry). `@shutdown` sends ServerCommand::Shutdown, `@close` drops the
 //!             only ServerHandle (the command channel closes). `@block` makes every write to the
 //!             transport pend from now on, `@unblock` lets the pending and all later writes complete
-//!             (what is written then is attributed to the last frame sent while blocked).
+//!             (what is written then is attributed to the last frame sent while blocked). `@failwrite`
+//!             makes the reply write of the next frame fail with BrokenPipe (Wire::fail_next_write).
 //! argument `--decode min|max` (default min) sets the initial decode level: min = nothing,
 //! max = (DataValues, Payload, Data). A tracing subscriber that formats every event into a sink is
 //! installed once per process so that the Display / Loggable code really runs.
@@ -450,6 +451,10 @@ fn run_case(line: &str, decode: DecodeLevel) -> String {
                     "block" => {
                         gate.lock().unwrap().blocked = true;
                     }
+                    "failwrite" => {
+                        // the reply write of the NEXT frame fails (disarmed again if that frame is not answered)
+                        wire.fail_next_write(std::io::ErrorKind::BrokenPipe);
+                    }
                     "unblock" => {
                         let w = {
                             let mut g = gate.lock().unwrap();
@@ -478,6 +483,7 @@ fn run_case(line: &str, decode: DecodeLevel) -> String {
             }
             wire.push(&unhex(&fr));
             settle().await;
+            wire.0.lock().unwrap().fail_write = None;
             let out = wire.take_out().concat();
             if gate.lock().unwrap().blocked {
                 last_blocked = Some(replies.len());
